@@ -46,6 +46,7 @@ type ereq struct {
 	behave int // 0 writes nothing, 1 200, 2 503, 3 500, 4 404, 5 panics without writing
 	dur    time.Duration
 	gap    time.Duration // arrival gap before this request
+	pval   int           // what a panicking handler panics with
 	// observations
 	c        *call
 	ran      int
@@ -121,6 +122,9 @@ func engineMode(e *env, tier string, globallyDisabled bool) {
 	reqs := make([]*ereq, nReq)
 	for i := range reqs {
 		q := &ereq{id: i, route: t.Intn(len(routes)), behave: t.Intn(6)}
+		if q.behave == 5 {
+			q.pval = t.Intn(nPv)
+		}
 		switch t.Intn(4) {
 		case 1:
 			q.dur = time.Duration(t.Range(1, 20)) * time.Millisecond
@@ -208,7 +212,7 @@ func engineMode(e *env, tier string, globallyDisabled bool) {
 			c.w.resolveBegin(c, q.behave != 2)
 		}
 		if q.behave == 5 {
-			panic("handler-panic")
+			panic(panicWith(r, q.pval))
 		}
 	}
 	gi := 0
@@ -222,6 +226,8 @@ func engineMode(e *env, tier string, globallyDisabled bool) {
 			groups[g].Routes = append(groups[g].Routes, rest.Route{Method: rt.method, Path: rt.path, Handler: serveFn})
 		}
 	}
+	maybeDisableLog(e)
+	lateCreation(e, cfg)
 	before := time.Now()
 	h, err := rest.VerifNewRouterHandler(conf, groups)
 	wN.created(before)
@@ -246,7 +252,7 @@ func engineMode(e *env, tier string, globallyDisabled bool) {
 			r.Logf("engine: request %d: +%v %s behave=%d dur=%v", q.id, q.gap, routes[q.route].path, q.behave, q.dur)
 		}
 	}
-	r.Sample(map[string]any{"scenario": "engine", "cpu_threshold": thr, "priority_threshold": thrP, "shedding_middleware": shedOn, "recover_middleware": recoverOn,
+	r.Sample(map[string]any{"scenario": "engine", "real_cpu_predicate": e.realChk, "cpu_threshold": thr, "priority_threshold": thrP, "shedding_middleware": shedOn, "recover_middleware": recoverOn,
 		"metrics_middleware": metricsOn, "load_disable": globallyDisabled, "groups": gdesc, "requests": nReq, "cpu0": cpu0, "cpu_flips": fmt.Sprintf("%+v", flips),
 		"first_request": fmt.Sprintf("%s behave=%d dur=%v", routes[reqs[0].route].path, reqs[0].behave, reqs[0].dur)})
 
